@@ -101,6 +101,31 @@ func pathPointsOf(f b6.Feature) (pts []s2.Point, problem string) {
 	return pts, ""
 }
 
+// ringProblem judges the ring a closed point list traces: no repeated
+// consecutive vertex, and not (clearly) clockwise.
+func ringProblem(pts []s2.Point) string {
+	ring := pts[:len(pts)-1]
+	for i := range ring {
+		if pointE7(ring[i]) == pointE7(ring[(i+1)%len(ring)]) {
+			return fmt.Sprintf("a repeated consecutive vertex at %d", i)
+		}
+	}
+	// signed area by the shoelace formula on (lng, lat): positive = counter-clockwise
+	area := 0.0
+	for i := range ring {
+		a, b := s2.LatLngFromPoint(ring[i]), s2.LatLngFromPoint(ring[(i+1)%len(ring)])
+		area += a.Lng.Degrees()*b.Lat.Degrees() - b.Lng.Degrees()*a.Lat.Degrees()
+	}
+	// Clearly clockwise only: a ring whose moved corner makes it
+	// (numerically) degenerate has signed area ~0 (+-1e-15), which
+	// is a self-touching ring - like self-intersection, something
+	// neither the repository's validation nor this check judges.
+	if area < -1e-10 || math.IsNaN(area) {
+		return fmt.Sprintf("clockwise order (signed area %g)", area)
+	}
+	return ""
+}
+
 func isClosed(pts []s2.Point) bool {
 	return len(pts) >= 4 && pointE7(pts[0]) == pointE7(pts[len(pts)-1])
 }
@@ -140,24 +165,8 @@ func validateFeature(w b6.World, f b6.Feature) string {
 			return fmt.Sprintf("%s: path with %d point(s)", id, len(pts))
 		}
 		if isClosed(pts) && closedByReference(f) {
-			ring := pts[:len(pts)-1]
-			for i := range ring {
-				if pointE7(ring[i]) == pointE7(ring[(i+1)%len(ring)]) {
-					return fmt.Sprintf("%s: closed path with a repeated consecutive vertex at %d", id, i)
-				}
-			}
-			// signed area by the shoelace formula on (lng, lat): positive = counter-clockwise
-			area := 0.0
-			for i := range ring {
-				a, b := s2.LatLngFromPoint(ring[i]), s2.LatLngFromPoint(ring[(i+1)%len(ring)])
-				area += a.Lng.Degrees()*b.Lat.Degrees() - b.Lng.Degrees()*a.Lat.Degrees()
-			}
-			// Clearly clockwise only: a ring whose moved corner makes it
-			// (numerically) degenerate has signed area ~0 (+-1e-15), which
-			// is a self-touching ring - like self-intersection, something
-			// neither the repository's validation nor this check judges.
-			if area < -1e-10 || math.IsNaN(area) {
-				return fmt.Sprintf("%s: closed path is clockwise (signed area %g)", id, area)
+			if prob := ringProblem(pts); prob != "" {
+				return fmt.Sprintf("%s: closed path with %s", id, prob)
 			}
 		}
 	case b6.FeatureTypeArea:
@@ -198,6 +207,14 @@ func validateFeature(w b6.World, f b6.Feature) string {
 				}
 				if pointE7(pts[0]) != pointE7(pts[len(pts)-1]) {
 					return fmt.Sprintf("%s: polygon %d stands on %s, which is not closed", id, i, p.FeatureID())
+				}
+				// whatever makes the path closed for the area (the same
+				// point at both ends, or two points at one position), the
+				// ring the area is built from must be a proper one
+				if len(pts) >= 4 {
+					if prob := ringProblem(pts); prob != "" {
+						return fmt.Sprintf("%s: polygon %d stands on %s, a ring with %s", id, i, p.FeatureID(), prob)
+					}
 				}
 			}
 		}
@@ -297,6 +314,18 @@ func invalidSource(rc *RC, g *cityGen, forCompact bool) ([]*fspec, int) {
 			}
 		}
 	}
+	if !forCompact && rc.Pct(25) {
+		// an area over a ring that is closed by position only (a second
+		// point at its first vertex's position), clockwise most of the time
+		for _, o := range g.twinRingOps(rc.Pct(75)) {
+			rc.Notef("input: %s %s", o.Spec, o.Invalid)
+			g.specs[o.Spec.ID] = o.Spec
+			specs = append(specs, o.Spec)
+			if o.Invalid != "" {
+				bad++
+			}
+		}
+	}
 	// order: shuffle so that areas may come before their paths
 	if rc.Pct(70) {
 		for i := len(specs) - 1; i > 0; i-- {
@@ -387,12 +416,19 @@ func c37History(rc *RC) {
 	steps := rc.Range(2, 24)
 	mix := opMix{invalidPct: 40, richTypes: true, geometryPct: 75}
 	offered := 0
+	var queue []op
 	for i := 0; i < steps && !rc.Failed(); i++ {
 		if kind == wkOverlayWithSnapshot && rc.Pct(10) {
 			w.(*ingest.MutableOverlayWorld).Snapshot()
 			rc.Notef("#%d Snapshot()", i)
 		}
+		if len(queue) == 0 && rc.Pct(6) {
+			queue = g.twinRingOps(rc.Pct(70))
+		}
 		o := g.genOp(mix)
+		if len(queue) > 0 {
+			o, queue = queue[0], queue[1:]
+		}
 		rc.Case(o.String())
 		if o.Invalid != "" {
 			offered++
